@@ -13,6 +13,14 @@ PLACEHOLDERS = {"~E~": "Ã©", "~Z~": "å­—", "~M~": "ðŸ˜€", "~L~": "Â«", "~R~": "Â
 F32_EPS = Fraction(1, 2 ** 23)
 
 
+def spell_unit(u):
+    """a unit that would read as an exponent after the number (e5, E-2, e) is spelled with its first letter escaped"""
+    import re
+    if re.match(r"^[eE]([0-9-]|$)", u):
+        return "\\%x " % ord(u[0]) + u[1:]
+    return u
+
+
 def unplace(obj):
     s = json.dumps(obj)
     for k, v in PLACEHOLDERS.items():
@@ -102,7 +110,7 @@ class Concretiser:
         elif k == "url":
             self.emit(self.url(t["v"]))
         elif k == "dim":
-            self.emit(POOL[t["n"]] + t["unit"])
+            self.emit(POOL[t["n"]] + spell_unit(t["unit"]))
         elif k == "num":
             self.emit(POOL[t["n"]])
         elif k == "pct":
